@@ -120,11 +120,7 @@ func init() {
 		}
 		evict := func() {
 			w.Storage.DropCache()
-			for _, cid := range w.sortedHandleCIDs() {
-				if x := w.Model.Conts[cid]; x == nil || x.Parent != nil {
-					delete(w.Handles, cid)
-				}
-			}
+			w.Handles = map[int]any{}
 		}
 		evict()
 		if c.Parent != nil {
